@@ -351,7 +351,10 @@ def subprocess_crosscheck(trace, spec, argv, texts, order, stdin_bytes, r, res):
 # lifecycle observer for Model.errors
 
 EDITS = ['add_island', 'remove_bridge', 'clear', 'set_top_foreign', 'set_top_none', 'shuffle',
-         'add_bad_role', 'add_edge', 'observe']
+         'add_bad_role', 'add_edge', 'observe',
+         # unusual but legal triple lists (the statement quantifies over all triple lists x tops)
+         'add_self_loop', 'dup_triple', 'add_inverted_edge', 'add_double_inverted', 'set_top_falsy', 'set_top_target_only',
+         'add_island_cycle', 'add_top_role_triple', 'add_role_without_colon', 'remove_instance', 'bridge_islands']
 
 
 def plan_lifecycle(rng, idx):
@@ -428,6 +431,46 @@ def execute_lifecycle(trace):
         elif name == 'add_edge':
             if len(vs) >= 1:
                 g.triples.append((vs[a % len(vs)], edge_roles[b % len(edge_roles)], vs[b % len(vs)]))
+        elif name == 'add_self_loop':
+            if vs:
+                v = vs[a % len(vs)]
+                g.triples.append((v, edge_roles[b % len(edge_roles)], v))
+        elif name == 'dup_triple':
+            if g.triples:
+                g.triples.insert(b % (len(g.triples) + 1), g.triples[a % len(g.triples)])
+        elif name == 'add_inverted_edge':
+            # a role written inverted in the triple itself (hand-built graphs are not deinverted)
+            if vs:
+                g.triples.append((vs[a % len(vs)], edge_roles[b % len(edge_roles)] + '-of', vs[(a + b) % len(vs)]))
+        elif name == 'add_double_inverted':
+            if vs:
+                g.triples.append((vs[a % len(vs)], edge_roles[b % len(edge_roles)] + '-of-of', vs[(a + b) % len(vs)]))
+        elif name == 'set_top_falsy':
+            g._top = ['', 0, False][a % 3]
+        elif name == 'set_top_target_only':
+            consts = [t[2] for t in g.triples if t[1] != ':instance' and t[2] not in set(vs) and isinstance(t[2], str)]
+            if consts:
+                g._top = consts[a % len(consts)]
+        elif name == 'add_island_cycle':
+            # a disconnected component in which every node has a parent
+            fresh += 1
+            v1, v2 = f'q{fresh}', f'q{fresh}b'
+            r = edge_roles[b % len(edge_roles)]
+            g.triples += [(v1, ':instance', 'island'), (v2, ':instance', 'island'), (v1, r, v2), (v2, r, v1)]
+        elif name == 'add_top_role_triple':
+            if vs:
+                g.triples.append((vs[a % len(vs)], mref.top_role, vs[b % len(vs)]))
+        elif name == 'add_role_without_colon':
+            if vs:
+                g.triples.append((vs[a % len(vs)], edge_roles[b % len(edge_roles)].lstrip(':'), 'k'))
+        elif name == 'remove_instance':
+            inst = [t for t in g.triples if t[1] == ':instance']
+            if inst:
+                g.triples.remove(inst[a % len(inst)])
+        elif name == 'bridge_islands':
+            # connect the first unreachable-looking source to the top by an edge written from the island
+            if len(vs) >= 2:
+                g.triples.append((vs[-1 - a % (len(vs) - 1)], edge_roles[b % len(edge_roles)], vs[0]))
         observe(name)
     if 'unreachable' in kinds:
         res.hit('probe.errors_unreachable')
